@@ -5,6 +5,7 @@ package main
 import (
 	"go/ast"
 	"go/token"
+	"regexp"
 	"strings"
 )
 
@@ -47,6 +48,310 @@ func c17UsesIdent(n ast.Node, name string) bool {
 		return !found
 	})
 	return found
+}
+
+// ---- family `late`: the context the tools run under ----
+
+var c17ScopingCall = regexp.MustCompile(`^(With(Cancel|Timeout|Deadline)|AfterFunc)`)
+
+// c17CalleeName is the last name of the called function (f, pkg.f, x.y.f).
+func c17CalleeName(ce *ast.CallExpr) string {
+	switch f := ce.Fun.(type) {
+	case *ast.Ident:
+		return f.Name
+	case *ast.SelectorExpr:
+		return f.Sel.Name
+	}
+	return ""
+}
+
+// c17CtxParam is the name of the first parameter when its type is <pkg>.Context.
+func c17CtxParam(ft *ast.FuncType) string {
+	if ft == nil || ft.Params == nil || len(ft.Params.List) == 0 {
+		return ""
+	}
+	p := ft.Params.List[0]
+	if len(p.Names) != 1 || !strings.HasSuffix(exprString(p.Type), ".Context") {
+		return ""
+	}
+	return p.Names[0].Name
+}
+
+func c17IsIdent(e ast.Expr, name string) bool {
+	id, ok := e.(*ast.Ident)
+	return ok && id.Name == name
+}
+
+// c17CtxOnlySelfDerived: every assignment (or var declaration) in n naming `ctx` on its left
+// derives it from itself: one call on the right whose first argument is `ctx`.
+func c17CtxOnlySelfDerived(n ast.Node, ctx string) bool {
+	ok := true
+	ast.Inspect(n, func(x ast.Node) bool {
+		switch v := x.(type) {
+		case *ast.AssignStmt:
+			named := false
+			for _, l := range v.Lhs {
+				if c17IsIdent(l, ctx) {
+					named = true
+				}
+			}
+			if named {
+				ce, isCall := (ast.Expr)(nil), false
+				if len(v.Rhs) == 1 {
+					ce, isCall = v.Rhs[0], true
+				}
+				c, yes := ce.(*ast.CallExpr)
+				if !isCall || !yes || len(c.Args) == 0 || !c17IsIdent(c.Args[0], ctx) {
+					ok = false
+				}
+			}
+		case *ast.ValueSpec:
+			for _, nm := range v.Names {
+				if nm.Name == ctx {
+					ok = false
+				}
+			}
+		case *ast.RangeStmt:
+			if (v.Key != nil && c17IsIdent(v.Key, ctx)) || (v.Value != nil && c17IsIdent(v.Value, ctx)) {
+				ok = false
+			}
+		}
+		return ok
+	})
+	return ok
+}
+
+// c17CallsFirstArg: n contains at least one call rendered `callee(`, and every such call
+// (function literals are not entered unless inLits) has `ctx` as its first argument.
+func c17CallsFirstArg(n ast.Node, callee, ctx string, inLits bool) bool {
+	seen, ok := 0, true
+	ast.Inspect(n, func(x ast.Node) bool {
+		if _, isLit := x.(*ast.FuncLit); isLit && !inLits {
+			return false
+		}
+		if ce, yes := x.(*ast.CallExpr); yes && exprString(ce.Fun) == callee {
+			seen++
+			if len(ce.Args) == 0 || !c17IsIdent(ce.Args[0], ctx) {
+				ok = false
+			}
+		}
+		return true
+	})
+	return ok && seen > 0
+}
+
+func factsC17Ctx(par, inv, str, runI, runS, gen *ast.FuncDecl, extra []*ast.FuncDecl, file string) []Fact {
+	var out []Fact
+	if par == nil || inv == nil || str == nil || runI == nil || runS == nil ||
+		par.Body == nil || inv.Body == nil || str.Body == nil || runI.Body == nil || runS.Body == nil {
+		out = append(out, unknownFact("toolCtxNotScoped", "Bool", "false", file, "parallelRunToolCall / ToolsNode.Invoke / ToolsNode.Stream / runToolCallTaskBy{Invoke,Stream} not all found"))
+		out = append(out, unknownFact("toolCtxFromCaller", "Bool", "false", file, "same"))
+		return out
+	}
+	fds := []*ast.FuncDecl{par, inv, str, runI, runS}
+	if gen != nil && gen.Body != nil {
+		fds = append(fds, gen)
+	}
+	for _, fd := range extra {
+		if fd != nil && fd.Body != nil {
+			fds = append(fds, fd)
+		}
+	}
+	// notScoped: nothing on the path derives a context that can end on its own
+	scoped, detached := false, false
+	for _, fd := range fds {
+		ast.Inspect(fd.Body, func(x ast.Node) bool {
+			if ce, ok := x.(*ast.CallExpr); ok {
+				nm := c17CalleeName(ce)
+				if c17ScopingCall.MatchString(nm) {
+					scoped = true
+				}
+				if nm == "Background" || nm == "TODO" || nm == "WithoutCancel" {
+					detached = true
+				}
+			}
+			return true
+		})
+	}
+	out = append(out, boolFact("toolCtxNotScoped", !scoped,
+		file+": ToolsNode.Invoke/Stream, parallelRunToolCall, runToolCallTaskBy{Invoke,Stream}, genToolCallTasks, newUnknownToolTask call no With{Cancel,Timeout,Deadline}*/AfterFunc"))
+
+	// fromCaller: the caller's ctx is what reaches task.r.Invoke / task.r.Stream
+	okAll := !detached
+	for _, fd := range []*ast.FuncDecl{inv, str} {
+		cn := c17CtxParam(fd.Type)
+		okAll = okAll && cn != "" && c17CtxOnlySelfDerived(fd.Body, cn) && c17CallsFirstArg(fd.Body, "parallelRunToolCall", cn, true)
+	}
+	if cn := c17CtxParam(par.Type); cn == "" {
+		okAll = false
+	} else {
+		okAll = okAll && c17CtxOnlySelfDerived(par.Body, cn) && c17CallsFirstArg(par.Body, "run", cn, false)
+		nGo := 0
+		ast.Inspect(par.Body, func(x ast.Node) bool {
+			g, ok := x.(*ast.GoStmt)
+			if !ok {
+				return true
+			}
+			nGo++
+			lit, isLit := g.Call.Fun.(*ast.FuncLit)
+			if !isLit || len(g.Call.Args) == 0 || !c17IsIdent(g.Call.Args[0], cn) {
+				okAll = false
+				return true
+			}
+			ln := c17CtxParam(lit.Type)
+			if ln == "" || !c17CtxOnlySelfDerived(lit.Body, ln) || !c17CallsFirstArg(lit.Body, "run", ln, true) {
+				okAll = false
+			}
+			if ln != cn && c17UsesIdent(lit.Body, cn) {
+				okAll = false // the literal must use the context it was given as an argument
+			}
+			return true
+		})
+		if nGo == 0 {
+			okAll = false
+		}
+	}
+	for _, pr := range []struct {
+		fd     *ast.FuncDecl
+		callee string
+	}{{runI, "task.r.Invoke"}, {runS, "task.r.Stream"}} {
+		cn := c17CtxParam(pr.fd.Type)
+		okAll = okAll && cn != "" && c17CtxOnlySelfDerived(pr.fd.Body, cn) && c17CallsFirstArg(pr.fd.Body, pr.callee, cn, true)
+	}
+	out = append(out, boolFact("toolCtxFromCaller", okAll,
+		file+": ctx is the first argument of parallelRunToolCall, of every run(..) (the goroutine gets it as an argument) and of task.r.Invoke/Stream; it is only ever reassigned from a call on itself; no Background/TODO/WithoutCancel"))
+	return out
+}
+
+// ---- family `utils`: the request object of a tool built by components/tool/utils ----
+
+// c17FreshRequest: in the Run method of a utils wrapper the arguments are decoded into a
+// local `inst` made for the call.
+func c17FreshRequest(fd *ast.FuncDecl, unmarshalArg string) bool {
+	if fd == nil || fd.Body == nil || fd.Recv == nil || len(fd.Recv.List) != 1 || len(fd.Recv.List[0].Names) != 1 {
+		return false
+	}
+	recv := fd.Recv.List[0].Names[0].Name
+	// var inst T, at the top level of the body
+	declared := false
+	for _, st := range fd.Body.List {
+		if ds, ok := st.(*ast.DeclStmt); ok {
+			if gd, ok := ds.Decl.(*ast.GenDecl); ok && gd.Tok == token.VAR {
+				for _, sp := range gd.Specs {
+					if vs, ok := sp.(*ast.ValueSpec); ok && len(vs.Names) == 1 && vs.Names[0].Name == "inst" &&
+						vs.Type != nil && exprString(vs.Type) == "T" && len(vs.Values) == 0 {
+						declared = true
+					}
+				}
+			}
+		}
+	}
+	// every assignment to inst is the custom unmarshaller's value or a new instance; exactly
+	// one new instance, not inside a function literal; inst is never declared again
+	fresh, other, inLit := 0, 0, false
+	var walk func(n ast.Node, lit bool)
+	walk = func(n ast.Node, lit bool) {
+		ast.Inspect(n, func(x ast.Node) bool {
+			switch v := x.(type) {
+			case *ast.FuncLit:
+				if x != n {
+					walk(v.Body, true)
+					return false
+				}
+			case *ast.AssignStmt:
+				for i, l := range v.Lhs {
+					if !c17IsIdent(l, "inst") {
+						continue
+					}
+					if v.Tok != token.ASSIGN || len(v.Lhs) != len(v.Rhs) {
+						other++
+						continue
+					}
+					switch r := exprString(v.Rhs[i]); r {
+					case "generic.NewInstance[T]()":
+						fresh++
+						if lit {
+							inLit = true
+						}
+					case "gt":
+					default:
+						other++
+					}
+				}
+			}
+			return true
+		})
+	}
+	walk(fd.Body, false)
+	decodes, passes := false, false
+	ast.Inspect(fd.Body, func(x ast.Node) bool {
+		if ce, ok := x.(*ast.CallExpr); ok {
+			switch exprString(ce.Fun) {
+			case "sonic.UnmarshalString":
+				if len(ce.Args) == 2 && exprString(ce.Args[0]) == unmarshalArg && exprString(ce.Args[1]) == "&inst" {
+					decodes = true
+				}
+			case recv + ".Fn":
+				if len(ce.Args) >= 2 && c17IsIdent(ce.Args[1], "inst") {
+					passes = true
+				}
+			}
+		}
+		return true
+	})
+	return declared && fresh == 1 && other == 0 && !inLit && decodes && passes
+}
+
+// c17NoRequestField: the wrapper struct keeps no value of the request type T.
+func c17NoRequestField(p *Pkg, typeName string) (found, clean bool) {
+	for _, n := range p.Names {
+		for _, d := range p.Files[n].Decls {
+			gd, ok := d.(*ast.GenDecl)
+			if !ok || gd.Tok != token.TYPE {
+				continue
+			}
+			for _, sp := range gd.Specs {
+				ts, ok := sp.(*ast.TypeSpec)
+				if !ok || ts.Name.Name != typeName {
+					continue
+				}
+				st, ok := ts.Type.(*ast.StructType)
+				if !ok {
+					return true, false
+				}
+				clean = true
+				for _, f := range st.Fields.List {
+					t := exprString(f.Type)
+					for _, bad := range []string{"T", "*T", "**T", "[]T", "[]*T", "interface{}", "any", "sync.Pool", "*sync.Pool"} {
+						if t == bad {
+							clean = false
+						}
+					}
+					if strings.HasPrefix(t, "map[") && strings.HasSuffix(t, "T") {
+						clean = false
+					}
+				}
+				return true, clean
+			}
+		}
+	}
+	return false, false
+}
+
+func factsC17Utils(r *Repo) []Fact {
+	const where = "components/tool/utils/{invokable_func,streamable_func}.go"
+	up := r.Pkg("components/tool/utils")
+	runI, _ := up.Func("invokableTool", "InvokableRun")
+	runS, _ := up.Func("streamableTool", "StreamableRun")
+	fi, ci := c17NoRequestField(up, "invokableTool")
+	fs, cs := c17NoRequestField(up, "streamableTool")
+	if runI == nil || runS == nil || !fi || !fs {
+		return []Fact{unknownFact("utilsFreshRequestPerCall", "Bool", "false", where,
+			"invokableTool.InvokableRun / streamableTool.StreamableRun or their struct types not found")}
+	}
+	v := c17FreshRequest(runI, "arguments") && c17FreshRequest(runS, "argumentsInJSON") && ci && cs
+	return []Fact{boolFact("utilsFreshRequestPerCall", v,
+		where+": InvokableRun / StreamableRun: `var inst T`; inst is only assigned generic.NewInstance[T]() (once, inside the call) or the custom unmarshaller's value; sonic.UnmarshalString(args, &inst); Fn(ctx, inst, ...); the wrapper structs have no field of the request type")}
 }
 
 func factsC17(r *Repo) []Fact {
@@ -270,5 +575,12 @@ func factsC17(r *Repo) []Fact {
 		}
 		out = append(out, boolFact("executorRecovers", rec, "compose/graph_manager.go: taskManager.executor: deferred recover() storing currentTask.err"))
 	}
+
+	// ---- toolCtxNotScoped / toolCtxFromCaller (family `late`) ----
+	unk, _ := cp.Func("", "newUnknownToolTask")
+	out = append(out, factsC17Ctx(par, inv, str, runI, runS, gen, []*ast.FuncDecl{unk}, file)...)
+
+	// ---- utilsFreshRequestPerCall (family `utils`) ----
+	out = append(out, factsC17Utils(r)...)
 	return out
 }
